@@ -159,13 +159,20 @@ def native_check(ctx, summaries, profile='dev', timeout=5.0):
     cases = [(i, s['native_case']) for i, s in enumerate(summaries) if s.get('native_case') is not None]
     if not cases: return []
     jobs = max(1, min(ctx.jobs, len(cases) // 50 + 1))
-    chunks = [cases[k::jobs] for k in range(jobs)]
+    # modest batches (a few hundred cases per task): very large runs otherwise push hundreds of megabytes through one
+    # pickle per worker, and one stuck task would hold everything
+    size = max(50, min(400, len(cases) // jobs + 1))
+    chunks = [cases[k:k + size] for k in range(0, len(cases), size)]
     with mp.get_context('fork').Pool(jobs) as pool:
-        res = pool.starmap(_native_chunk, [(binary, [c for _, c in ch], timeout) for ch in chunks])
-    for ch, rs in zip(chunks, res):
-        for (i, _), r in zip(ch, rs):
-            summaries[i]['native'] = r
+        for ci, rs in pool.imap_unordered(_native_chunk_indexed, [(ci, binary, [c for _, c in ch], timeout) for ci, ch in enumerate(chunks)]):
+            for (i, _), r in zip(chunks[ci], rs):
+                summaries[i]['native'] = r
     return cases
+
+
+def _native_chunk_indexed(job):
+    ci, binary, cases, timeout = job
+    return ci, native.run_cases(binary, cases, timeout)
 
 
 def _native_chunk(binary, cases, timeout):
